@@ -16,7 +16,7 @@ TABLE = {
     "C14": (["search_trav"], 80, 1200, 30, False),
     "C15": (["search_cond"], 80, 1200, 30, False),
     "C16": (["search_slice"], 80, 1200, 30, False),
-    "C17": (["search_path"], 80, 1200, 30, False),
+    "C17": (["search_path", "search_pathcost"], 80, 1200, 30, False),
     "C05": (["maint", "maint_file", "maint_memory"], 30, 400, 40, False),
     "C06": (["variants"], 25, 300, 40, False),
     "C12": (["values"], 40, 500, 40, False),
@@ -34,6 +34,33 @@ def mc_db(tier):
     return {"states": r.distinct, "transitions": r.generated, "runs": [r.summary()]}
 
 
+def path_family(tier, verdict, work, totals):
+    """C17, bounded-exhaustive: every graph of the two-parallel-routes family (route lengths 1..3 edges, 1..4 in the thorough
+    tier; every 0/1 labelling of the interior elements) searched with a condition that makes an element cost 1 or 2; TLC
+    decides each result against DbSearch!PathOk (the cheaper route is not always the shorter one)."""
+    import json
+    import os
+    bins = vlib.build(["vdb"])
+    out = os.path.join(work, "pathfam.ndjson")
+    r = vlib.run_bin(os.path.join(bins, "vdb"), ["pathfam", "--max-edges", 4 if tier == "thorough" else 3, "--out", out], timeout=1800)
+    if r.returncode != 0:
+        raise vlib.ToolError("vdb pathfam failed: %s" % (r.stderr or "")[-400:])
+    summ = json.loads(r.stdout.strip().splitlines()[-1])
+    acc, rej, checked, wall = vlib.validate_runs("DbTrace", "DbTrace.cfg", out, work, timeout=3000, xmx="6g", tag="c17fam", max_rejections=5)
+    log("[C17] two-route family (exhaustive for its bounds): cases=%d accepted=%d rejected=%d events=%d tlc=%.0fs" % (summ["programs"], acc, len(rej), checked, wall))
+    for x in rej:
+        verdict.report("path-family:%s" % dbcheck.classify(x["event"], x["prefix"]),
+                       "DbTrace rejects case %d of the two-route family at event %d: %s" % (x["run"], x["event_index"], vlib.short(x["event"], 300)),
+                       {"event": x["event"], "history": x["prefix"]})
+    totals["runs"] += summ["programs"]
+    totals["accepted"] += acc
+    totals["rejected"] += len(rej)
+    totals["events_checked"] += checked
+    totals["searches"] += summ["programs"]
+    totals["searches_nontrivial"] += summ["programs"]
+    totals["per_profile"]["two_route_family_exhaustive"] = {"accepted": acc, "rejected": len(rej), "events": checked, "cases": summ["programs"]}
+
+
 def run(prop, tier):
     t0 = time.time()
     profiles, rq, rt, ops, use_mc = TABLE[prop]
@@ -42,6 +69,8 @@ def run(prop, tier):
     try:
         mc = mc_db(tier) if use_mc else None
         totals = dbcheck.run_profiles(prop, tier, profiles, rq, rt, ops, verdict, work)
+        if prop == "C17":
+            path_family(tier, verdict, work, totals)
         dbcheck.evidence(prop, tier, totals, t0, verdict, mc=mc)
         return verdict.exit_code()
     finally:
